@@ -29,7 +29,7 @@ from ..canon import fingerprint
 from ..explorer import Step
 
 PROPERTY = "C07"
-ALPHABET = "peer frames on ids {1,2,3,4}: HEADERS x {request,response,info,trailers,invalid} x {ES} x {PRIORITY} x {split}, DATA x {ES} x {pad}, RST_STREAM, PUSH_PROMISE (1->2, 1->4, 2->4), WINDOW_UPDATE, PRIORITY; local: request on 1/3, reset 1/2"
+ALPHABET = "configurations {default, inbound validation+normalisation off}; peer frames on ids {1,2,3,4}: HEADERS x {request,response,info,trailers,invalid} x {ES} x {PRIORITY} x {split}, DATA x {ES} x {pad}, RST_STREAM, PUSH_PROMISE (1->2, 1->4, 2->4, 3->2, 3->4), WINDOW_UPDATE (3 / 2^31-1), PRIORITY; local: request on 1/3, reset 1/2"
 BOUNDS = {"quick": "BFS depth 5 per role; all single-bit flips of the valid corpus",
           "thorough": "BFS depth 7 per role (or time budget, reported); all single-bit flips and all double-bit flips within one frame for corpus streams <= 64 bytes"}
 sb = H.stateless_block
@@ -150,8 +150,9 @@ def frame_menu(client):
         M["D:%d:pad:es" % sid] = [wire.data(sid, b"ab", es=True, pad=3)]
         M["R:%d" % sid] = [wire.rst_stream(sid, 2)]
         M["W:%d" % sid] = [wire.window_update(sid, 3)]
+        M["W:%d:max" % sid] = [wire.window_update(sid, 2 ** 31 - 1)]      # overflows the stream's send window
         M["P:%d" % sid] = [wire.priority(sid, 0, 3, False)]
-    for par, pro in ((1, 2), (1, 4), (2, 4), (3, 2)):
+    for par, pro in ((1, 2), (1, 4), (2, 4), (3, 2), (3, 4)):
         M["PP:%d:%d" % (par, pro)] = [wire.push_promise(par, pro, sb(H.REQ))]
     return M
 
@@ -160,26 +161,37 @@ class S:
     pass
 
 
+CONFIGS = {"default": {}, "novalidate": {"validate_inbound_headers": False, "normalize_inbound_headers": False}}
+
+
 class Spec:
     def __init__(self, key):
-        _, role, tier = key
+        _, role, cfg, tier = key
         self.client = role == "client"
         self.tier = tier
-        self.name = "c07-%s-%s" % (role, tier)
-        self.max_depth = 5 if tier == "quick" else 7
+        self.cfg = CONFIGS[cfg]
+        self.name = "c07-%s-%s-%s" % (role, cfg, tier)
+        self.max_depth = (5 if tier == "quick" else 7) - (1 if cfg != "default" else 0)
         self.frames = frame_menu(self.client)
 
     def initial(self):
         out = []
         for nm, handshake in (("handshaken", True), ("fresh", False)):
             st = S()
-            st.h = H.Solo(self.client, handshake=handshake)
+            st.h = H.Solo(self.client, handshake=handshake, **self.cfg)
             if not handshake:
                 st.h.conn.initiate_connection()
                 st.h.conn.data_to_send()
             st.mon = Monitor(self.client)
             st.dead = False
             out.append((nm, st))
+        if self.client:
+            # a start state further on: two requests outstanding, a push promised on the second one and completed
+            st = pickle.loads(pickle.dumps(out[0][1]))
+            for lab in ("l:req:1", "l:req:3", "rx:PP:3:4", "rx:H:4:response:es"):
+                step = self.apply(st, lab)
+                assert not step.violations and not st.dead, lab
+            out.append(("two-requests+finished-push", st))
         return out
 
     def fingerprint(self, st):
@@ -318,7 +330,8 @@ def replay(rec):
 def run(ctx):
     quick = ctx.tier == "quick"
     for role in ("server", "client"):
-        ctx.explore(("c07", role, ctx.tier), time_budget=None if quick else 420)
+        for cfg in sorted(CONFIGS):
+            ctx.explore(("c07", role, cfg, ctx.tier), time_budget=None if quick else 420)
     jobs = []
     for client in (False, True):
         for i in range(len(corpus.valid_streams(client))):
